@@ -19,7 +19,7 @@ type SingletonTypeDefinition struct {
 
 func (self SingletonTypeDefinition) Span() errors.Span { return self.Range }
 func (self SingletonTypeDefinition) String() string {
-	return fmt.Sprintf("%s\n%s", self.Ident, self.Type)
+	return fmt.Sprintf("%s = %s;", self.Ident, self.Type)
 }
 
 // Impl block capabilities
